@@ -213,7 +213,7 @@ Qed.
 Lemma tcons_step s i : tcons s -> tcons (fst (tstep s i)).
 Proof.
   intros O. pose proof O as [L B1 B2 J1 J2 J5 J6]. unfold tstep. unfold t_chain in J1. rewrite <- ?app_assoc in J1.
-  destruct (nth_error (t_thr s) i) as [[vals k [| |b] nb rets | n issued [| |] | n e [|] rets | n e [|] rets | n rets | d]|] eqn:T;
+  destruct (nth_error (t_thr s) i) as [[vals k [|rb|b] nb rets | n issued [| |] | n e [|] rets | n e [|] rets | n [|] rets | d]|] eqn:T;
     [..|exact O].
   - (* producer, critical section *)
     destruct (t_waiters s) as [|c w] eqn:W; [destruct (full s) eqn:F|]; cbn [fst].
@@ -240,9 +240,9 @@ Proof.
       * apply (expected_after s i _ _ _ T J5). right. repeat eexists.
       * apply (sorted_after s i _ _ _ T J6). right; left. do 8 eexists. split; [reflexivity|]. split; [reflexivity|].
         unfold t_chain. rewrite EI, EB. cbn [map app]. rewrite !app_nil_r. rewrite (map_app snd). reflexivity.
-  - (* producer, resolution *)
+  - (* producer, after the unlock: resolution of the taken promise, if any *)
     cbn [fst]. pose proof (tcons_resolve_pop s i O) as O1. rewrite <- (resolve_pop_thr s i) in T.
-    apply (tcons_with_thr _ i _ _ O1 T); reflexivity.
+    destruct rb; apply (tcons_with_thr _ i _ _ O1 T); reflexivity.
   - (* producer, wake *)
     cbn [fst]. apply (tcons_with_thr s i _ _ O T); reflexivity.
   - (* consumer, critical section *)
@@ -303,6 +303,7 @@ Proof.
     apply (tcons_with_thr _ i _ _ O1 T); reflexivity.
   - (* size *)
     cbn [fst]. split; unfold t_chain in *; tfields; try assumption; try (rewrite <- ?app_assoc; exact J1); thr_only T J5 J6.
+  - cbn [fst]. split; unfold t_chain in *; tfields; try assumption; try (rewrite <- ?app_assoc; exact J1); thr_only T J5 J6.
   - (* destroy *)
     cbn [fst]. split; unfold t_chain in *; tfields; try assumption; try (intros ?HH; congruence); try (rewrite <- ?app_assoc; exact J1); try thr_only T J5 J6.
     + etransitivity; [exact J1|]. cbn [map app]. rewrite app_nil_r. apply Permutation_app_head.
@@ -320,7 +321,7 @@ Definition t_fresh (t : thr) : Prop :=
   | TCons _ issued pc => issued = 0%nat /\ pc = CIdle
   | TUnb _ _ pc _ => pc = UIdle
   | TUnbPush _ _ pc _ => pc = UIdle
-  | TSize _ _ => True
+  | TSize _ pc _ => pc = UIdle
   | TDestroy _ => True
   end.
 
